@@ -194,6 +194,95 @@ def run(spec, acc, ctx, mode):
                         "list_lengths": info["lens"]})
 
 
+def run_steered(spec, acc, ctx, mode):
+    """Fresh scheme object and key per case, everything from KeyGen to the last search inside instrument.Steer: a few
+    PRF outputs and os.urandom draws begin / end with patterns that content-sniffing code keys on, and so do some of
+    the caller's keywords and identifiers. (No object or key reuse here: a value forced in one case must not meet an
+    index built outside the context.)"""
+    from vlib.instrument import Steer
+    rng = ctx.rng
+    gen.MIXED_ID_SIZES = False
+    i = spec.get("index", 0)
+    st_ = Steer(rng)
+    while not ctx.out_of_time():
+        scheme = gen.SCHEMES[i % len(gen.SCHEMES)]
+        short = gen.SHORT[scheme]
+        i += 1
+        cid, cfg = gen.pick_config(scheme, rng, rng.randrange(40))
+        cls = rng.choice(["tiny", "block-edge", "pow2-edge", "zipf", "single-pow2"])
+        try:
+            db, info = gen.make_db(rng, scheme, cfg, cls, rng.choice([4, 8, 16]))
+            db, n_kw, n_id = gen.magic_db(rng, scheme, cfg, db)
+        except ValueError:
+            continue
+        shadow = copy.deepcopy(db)
+        cfg0 = copy.deepcopy(cfg)
+        cp = gen.caps(scheme, cfg)
+        acc.count("steered.cases")
+        acc.count("steered.magic_keywords", n_kw)
+        acc.count("steered.magic_identifiers", n_id)
+        st_.arm()
+        with st_:
+            st = sse.Setup(scheme, cfg, db)
+            extra = lambda **k: sse.case_desc(scheme, cid + ":steered", cfg0, cls, shadow,  # noqa: E731
+                                              dict(k, steered=True, steered_patterns=list(st_.patterns)))
+            if st.error is not None:
+                if mode == "present":
+                    acc.violation(sse.setup_signature(scheme, st) + ":steered",
+                                  f"{scheme} {st.phase} raised {type(st.error).__name__}: {st.error} on a valid database "
+                                  f"while some random values were forced to {st_.patterns}", extra())
+                continue
+            if mode == "present":
+                words = [(w, "present") for w in list(shadow)[:12]]
+            else:
+                words = gen.absent_keywords(rng, shadow, cp["kw_limit"], k_random=2, k_close=5)
+            for w, fam in words:
+                acc.count("steered.searches")
+                acc.count("steered.searches." + short)
+                want = shadow.get(w, []) if mode == "present" else []
+                try:
+                    got = st.search(w)
+                except Exception as e:
+                    acc.violation(f"{short}:{'search' if mode == 'present' else 'absent-search'}-raised:{exc_site(e)}",
+                                  f"{scheme} search ({fam}) raised {type(e).__name__}: {e} (forced: {st_.patterns})",
+                                  extra(keyword=w))
+                    continue
+                if not sse.result_matches(scheme, got, want):
+                    acc.violation(f"{short}:wrong-result:steered" if mode == "present" else f"{short}:absent-nonempty",
+                                  f"{scheme} search ({fam}) returned {len(got)} ids, expected {len(want)} "
+                                  f"(forced: {st_.patterns})", extra(keyword=w))
+        acc.count("steered.prf_outputs_forced", st_.n_prf)
+        acc.count("steered.urandom_draws_forced", st_.n_ur)
+        st_.n_prf = st_.n_ur = 0
+
+
+def replay_steered(case, acc, ctx, mode):
+    from vlib.instrument import Steer
+    st_ = Steer(ctx.rng, p=0.3, cap=12)
+    scheme = case["scheme"]
+    for _ in range(150):
+        st_.arm()
+        db = copy.deepcopy(case["db"])
+        with st_:
+            st = sse.Setup(scheme, copy.deepcopy(case["cfg"]), db)
+            acc.count("replayed")
+            if st.error is not None:
+                if mode == "present":
+                    acc.violation(sse.setup_signature(scheme, st) + ":steered", str(st.error), case)
+                    return
+                continue
+            words = list(case["db"]) if mode == "present" else [case["keyword"]] if "keyword" in case else []
+            for w in words:
+                try:
+                    got = st.search(w)
+                except Exception as e:
+                    acc.violation("replay:search-raised", f"{type(e).__name__}: {e}", case)
+                    return
+                if not sse.result_matches(scheme, got, case["db"].get(w, []) if mode == "present" else []):
+                    acc.violation("replay:wrong-result", f"{len(got)} ids", case)
+                    return
+
+
 SEARCH_FUNCS = {
     "CJJ14.PiBas": "schemes/CJJ14/PiBas/construction.py:PiBas._Search",
     "CJJ14.PiPack": "schemes/CJJ14/PiPack/construction.py:PiPack._Search",
@@ -253,6 +342,9 @@ def finish(m, tier, mode, min_searches):
         "setups_rejected_half_way_before_the_real_one": c.get("rejected_setups", 0),
         "cases_in_which_the_caller_edited_cfg_and_db_after_setup": c.get("caller_edits_inputs_after_setup", 0),
     }
+    cov["steered_values"] = {k[8:]: v for k, v in c.items() if k.startswith("steered.") and k.count(".") == 1}
+    if c.get("steered.prf_outputs_forced", 0) < 200 or c.get("steered.searches", 0) < 500:
+        inc.append("the steered-values workload forced fewer than 200 PRF outputs or compared fewer than 500 searches")
     if mode == "present":
         cov["postings_compared"] = c.get("postings_compared", 0)
     else:
